@@ -257,6 +257,48 @@ def correspondence(ctx, libdir):
     return not bad and not state_bad
 
 
+def jerk_correspondence(ctx, libdir):
+    """bit-exact: Gallina transcription of reb_calculate_and_apply_jerk (coq/C01/Jerk.v at binary64) vs the exported C function."""
+    ncases = ctx.scale(240, 3000)
+    r = vlib.run_py(libdir, os.path.join(HERE, "c01_jerk_cases.py"), [ctx.rng.randrange(1 << 30), ncases], timeout=600)
+    if r.returncode > 0:
+        r = vlib.run_py(ctx.lib(), os.path.join(HERE, "c01_jerk_cases.py"), [ctx.rng.randrange(1 << 30), ncases], timeout=600)
+    if r.returncode != 0:
+        if r.returncode < 0:
+            ctx.violation("jerk-crash", {"status": r.returncode, "stderr": r.stderr[-1000:]}, True, "reb_calculate_and_apply_jerk crashed")
+        else:
+            ctx.obligation("correspondence:C01 jerk cases generated", False, (r.stdout + r.stderr)[-1500:])
+        return
+    cases = json.loads(r.stdout)
+    fh = lambda h: vlib.fhex(float.fromhex(h))
+    rows = lambda ll: "[" + "; ".join("[" + "; ".join(fh(x) for x in l) + "]" for l in ll) + "]"
+    jobs = []
+    chunk = 80
+    for c0 in range(0, len(cases), chunk):
+        body = ("From Coq Require Import List ZArith PrimFloat.\nFrom RV Require Import Common.FloatNum C01.JerkRun.\n"
+                "Import ListNotations.\nOpen Scope float_scope.\nDefinition cases : list (list float * list float) := [\n")
+        body += ";\n".join("(jerkF %s %s %s %s %d %d %d %s, [%s])" % (fh(c["v"]), fh(c["G"]), rows(c["bodies"]), rows(c["vel"]), c["nact"], c["N"],
+                                                                    c["ignore"], "true" if c["tp"] else "false", "; ".join(fh(x) for x in c["result"]))
+                            for c in cases[c0:c0 + chunk])
+        body += "].\nEval vm_compute in (bad_cases cases).\n"
+        jobs.append(("c01_jerk_%d" % (c0 // chunk), body))
+    bad, ok_all = [], True
+    for (name, ok, out), c0 in zip(vlib.coq_eval_many(jobs), range(0, len(cases), chunk)):
+        b = vlib.parse_coq_list_nat(out) if ok else None
+        if b is None:
+            ok_all = False
+            ctx.obligation("correspondence:C01 jerk:" + name, False, out[-1200:])
+        else:
+            bad += [c0 + x for x in b]
+    for k, c in enumerate(cases):
+        ctx.case(key=("jerk", c["N"], c["nact"], c["ignore"], c["tp"]), nontrivial=c["N"] > c["ignore"],
+                 sample={"jerk_case": {q: c[q] for q in ("N", "nact", "ignore", "tp")}} if k == 0 else None)
+    if ok_all and not bad:
+        ctx.traces += len(cases)
+    ctx.obligation("correspondence:C01 jerk model(binary64) == reb_calculate_and_apply_jerk bit-for-bit on %d random states" % len(cases),
+                   ok_all and not bad, "mismatching cases: %s" % [{q: cases[b][q] for q in ("N", "nact", "ignore", "tp")} for b in bad[:6]])
+
+
 def search(ctx, libdir, only=None):
     args = [ctx.seed, ctx.tier] + ([only] if only else [])
     r = vlib.run_py(libdir, os.path.join(HERE, "c01_search.py"), args, timeout=3000)
@@ -290,9 +332,10 @@ def search(ctx, libdir, only=None):
 def run(ctx):
     libdir = ctx.lib()
     regen_ok = ctx.regen("translate_schemes.py")
-    proved = ctx.prove("C01", timeout=1200)
+    proved = ctx.prove("C01", extra_targets=["C01/JerkRun.vo"], timeout=1200)
     if regen_ok:
         correspondence(ctx, libdir)
+    jerk_correspondence(ctx, libdir)
     search(ctx, libdir)
     ctx.rule = ("proof: finite, exhaustive over the schemes listed in coq/C01/Props.v. correspondence: one gdb-traced run per "
                 "(integrator, type/kernel/corrector/phi0/phi1/n, step | step,step,synchronize, sign of dt); distinct by label. searcher: one "
